@@ -980,6 +980,9 @@ def run(tier, seed, replay):
             fired.setdefault("no_longer:" + t["stream"], {"n": 0, "example": None})["n"] += 1
         shutil.rmtree(d, ignore_errors=True)
     shutil.rmtree(base, ignore_errors=True)
+    okt, whatt = common.tie_phase(rep, "C13")
+    if not okt:
+        disagreements.append(({"regenerated_tie": True}, whatt))
     tie_broken = (not cr.ok) or model is None or disagreements
     if tie_broken and found == 0:
         what = []
